@@ -341,7 +341,17 @@ fn gen_c14(rng: &mut Rng) -> Vec<Vector> {
         _ => rand_ts(rng),
     };
     let kind: &'static str = Box::leak(format!("{}|{}", mk, dk).into_boxed_str());
-    vec![Vector { as_of, void_after: rand_ts(rng), bound, drift, status: rng.below(3) as i32, real, mono: ts(m), kind }]
+    let first = Vector { as_of, void_after: rand_ts(rng), bound, drift, status: rng.below(3) as i32, real, mono: ts(m), kind };
+    let mut out = vec![first];
+    // The same record asked again at other instants (an error answer must not stick to the record):
+    // before as_of minus the blur, then inside the blur, then after as_of.
+    if rng.chance(1, 5) {
+        let blur = BLUR_NS.load(std::sync::atomic::Ordering::Relaxed) as i128;
+        for (mm, k2) in [(a - blur - 1 - rng.range(0, 1_000_000) as i128, "same-record-breach"), (a - rng.range(0, (blur - 1).max(0) as i64) as i128, "same-record-in-blur"), (a + rng.range(0, 3_000_000_000) as i128, "same-record-after")] {
+            out.push(Vector { mono: ts(clamp_ts(mm)), kind: k2, ..first });
+        }
+    }
+    out
 }
 
 pub fn generate(prop: &str, rng: &mut Rng) -> Vec<Vector> {
@@ -490,6 +500,44 @@ fn main() {
                 Err(_) => "PANIC".to_string(),
             };
             println!("{} || {}", via_client, via_reader);
+        }
+        return;
+    }
+
+    if mode == "openstress" {
+        // Failed opens must not consume anything: with a small descriptor limit, open every file of
+        // the list many more times than the limit allows, then a valid segment must still open.
+        let list = std::fs::read_to_string(arg_str(&args, "list", "")).expect("--list");
+        let valid = arg_str(&args, "valid", "");
+        let lim = libc::rlimit { rlim_cur: 64, rlim_max: 4096 };
+        unsafe { libc::setrlimit(libc::RLIMIT_NOFILE, &lim) };
+        let fds = || std::fs::read_dir("/proc/self/fd").map(|d| d.count()).unwrap_or(0);
+        let base = fds();
+        for path in list.lines().filter(|l| !l.is_empty()) {
+            let cpath = std::ffi::CString::new(path).unwrap();
+            let mut first = String::new();
+            let mut last = String::new();
+            for k in 0..100 {
+                let r = match clock_bound_shm::ShmReader::new(&cpath) {
+                    Ok(_) => "OPENED".to_string(),
+                    Err(clock_bound_shm::ShmError::SyscallError(errno, detail)) => format!("ERR Syscall {} {}", errno.0, detail.to_str().unwrap_or("?")),
+                    Err(e) => format!("ERR {:?}", e),
+                };
+                if k == 0 {
+                    first = r.clone();
+                }
+                last = r;
+            }
+            let after = fds();
+            let v = match clock_bound_shm::ShmReader::new(&std::ffi::CString::new(valid.as_str()).unwrap()) {
+                Ok(_) => "OPENED".to_string(),
+                Err(e) => format!("ERR {:?}", e),
+            };
+            println!("{} | first={} | last={} | fds={} (base {}) | valid={}", path, first.replace(' ', "_"), last.replace(' ', "_"), after, base, v.replace(' ', "_"));
+            if after > base + 8 {
+                // leaked: keep going would only repeat EMFILE; report and stop
+                break;
+            }
         }
         return;
     }
